@@ -166,6 +166,8 @@ def fresh_objects(case):
         return Ephem(pts)
     else:
         raise ValueError(kind)
+    if init.get("by_name") and kind in ("kepler", "j2", "none"):
+        prop = {"kepler": "Kepler", "j2": "J2", "none": "NonePropagator"}[kind]  # the propagator given by its name
     o = Orbit(cart, mkdate(0), "cartesian", "EME2000", prop)
     if kind == "keplernum" and init.get("mans"):
         o.maneuvers = make_mans(init)
@@ -574,6 +576,68 @@ class Machine:
         self.cache = {}
         return ["user_change:" + op["what"]]
 
+    def other_case(self):
+        """Another orbit of the same kind, built the same way (same propagator spelling)."""
+        oc = dict(self.case)
+        init = dict(self.case["init"])
+        if self.kind == "sgp4":
+            init["inc_deg"] = round((init["inc_deg"] + 7.0) % 178.0 + 0.5, 4)
+            init["n_rev"] = round(11.0 + (init["n_rev"] - 11.0 + 1.7) % 4.8, 8)
+        elif self.kind == "cw":
+            init["rel"] = [-x for x in init["rel"]]
+        else:
+            el = dict(init["el"])
+            el["nu"] = el["nu"] + 1.0
+            el["raan"] = (el["raan"] + 0.5) % (2 * math.pi)
+            init["el"] = el
+        oc["init"] = init
+        return oc
+
+    def op_interleave(self, op):
+        """An iteration of the shared orbit is alive while ANOTHER orbit of the same kind (its own object, its
+        own propagator - built the same way, e.g. both with the propagator given by name) is propagated and
+        iterated: two orbits are independent, so the suspended iteration goes on as if nothing happened."""
+        if self.kind not in ("kepler", "j2", "sgp4", "none", "cw"):
+            return ["skip"]
+        start, stop, step = self._range(op)
+        want = model_range(start, stop, step)
+        if len(want) < 3:
+            return ["skip"]
+        kw = self.iter_kwargs(op, start, stop, step)
+        oc = self.other_case()
+        other = fresh_objects(oc)
+        if other.propagator is self.obj.propagator:
+            raise Violation("propagator-shared", "two orbits built separately hold the very same propagator object")
+        ref_other = fresh_objects(oc)
+        t = self.clamp(op["t_us"])
+        it = self.obj.iter(**kw)
+        got = []
+        k = 1 + op["k"] % (len(want) - 1)
+        for i, s_ in enumerate(it):
+            got.append(s_)
+            if i + 1 == k:
+                res = other.propagate(mkdate(t))
+                want_o = cart(ref_other.propagate(mkdate(t)))
+                if not np.array_equal(cart(res), want_o):
+                    d = float(np.linalg.norm(cart(res)[:3] - want_o[:3]))
+                    raise Violation("state-differs", f"another orbit propagated while an iteration of the first is suspended "
+                                    f"is {d:.3g} m away from its own propagation")
+                if op.get("zip"):
+                    # the other orbit starts an iteration of its own and both go on in lockstep
+                    it2 = other.iter(**kw)
+                    ref2 = iter(list(ref_other.iter(**kw)))
+                    for a2, b2 in zip(it2, ref2):
+                        if not np.array_equal(cart(a2), cart(b2)):
+                            raise Violation("state-differs", "iteration of another orbit, started while the first is suspended, "
+                                            "differs from the same iteration on fresh objects")
+                        nxt = next(it, None)
+                        if nxt is None:
+                            break
+                        got.append(nxt)
+        self.check_dates(got, want, f"iter(start={start / 1e6:g}s, stop={stop / 1e6:g}s, step={step / 1e6:g}s) suspended after {k} "
+                         f"states while another orbit was used")
+        return ["interleave"]
+
     def op_clone_self(self, op):
         """From now on the history goes on with a clone of the shared object (stdlib copy / deepcopy, pickle,
         its own copy()): a clone is the same initial orbit, so nothing may change."""
@@ -648,7 +712,7 @@ class Machine:
 def op_strategy(draw, kind, h_us, span_us):
     name = draw(st.sampled_from(["propagate", "iter_range", "iter_range", "iter_range", "iter_dates", "iter_daterange",
                                  "ephem", "iter_listeners", "rebind", "rebind_other", "partial", "iter_own", "kick", "user_change",
-                                 "clone_self"]))
+                                 "clone_self", "interleave"]))
 
     def t():
         # one in four on the grid of the integration / tabulation step (ephemeris nodes, integration points)
@@ -700,6 +764,10 @@ def op_strategy(draw, kind, h_us, span_us):
              stop_as_td=draw(st.booleans()), neg_step=draw(st.booleans()), explicit_start=draw(st.booleans()))
     if name == "partial":
         d["k"] = draw(st.integers(0, 5))
+    if name == "interleave":
+        d["k"] = draw(st.integers(0, 20))
+        d["t_us"] = t()
+        d["zip"] = draw(st.booleans())
     return d
 
 
@@ -718,6 +786,8 @@ def history(draw, kind):
         el = draw(go.elements(elliptic=True, hyperbolic=False, emax_ell=0.6, rp_range=(1.05, 7.0), mwind=0.5))
         init = dict(el=el)
         h = 60
+        if kind in ("kepler", "j2", "none"):
+            init["by_name"] = draw(st.booleans())
         if kind in ("kepler", "j2", "keplernum", "none"):
             init["form"] = draw(st.sampled_from(["cartesian", "cartesian", "keplerian", "keplerian_mean", "equinoctial", "spherical"]))
         if kind == "keplernum":
@@ -764,7 +834,7 @@ def check(case):
     m = Machine(case)
     tags = m.run()
     kinds = {t for t in tags if t in ("propagate", "iter_range", "iter_dates", "iter_daterange", "ephem", "iter_listeners", "iter_own",
-                                       "rebind", "rebind_other", "partial_consume", "kick:A", "kick:B", "kick:C", "user_change:form", "user_change:frame", "propagate-again", "restart-from-event-state", "clone:copy", "clone:deepcopy", "clone:pickle", "clone:own")}
+                                       "rebind", "rebind_other", "partial_consume", "kick:A", "kick:B", "kick:C", "user_change:form", "user_change:frame", "propagate-again", "restart-from-event-state", "clone:copy", "clone:deepcopy", "clone:pickle", "clone:own", "interleave")}
     # an op that failed as a listed known finding and after which the history went on also counts:
     # what follows it runs on objects that have been through a failing call
     special = {"backward", "step-not-dividing", "shorter-than-interp-order", "stop-off-grid", "known-finding-op"} & set(tags)
